@@ -416,8 +416,12 @@ pub fn run_on_this_thread(plan: &Plan, keep_trace: bool) -> RunOutput {
                 break;
             }
         }
-        if !w.model.borrow().violations.is_empty() {
-            break;
+        {
+            let m = w.model.borrow();
+            let stop = if knobs.stop_on.is_empty() { !m.violations.is_empty() } else { m.violations.iter().any(|v| v.property == knobs.stop_on) };
+            if stop || m.poisoned {
+                break;
+            }
         }
     }
     let crash_points = w.crash_counter.get();
